@@ -22,7 +22,7 @@ ASSUMPTIONS = _x1.X1_ASSUMPTIONS + ["responses of commands not listed in RULE ar
 MENU = [("pause",), ("suspend", "none"), ("suspend", "both")]
 _q = ["resp", "count2", "scan2", "nested", "fly1"]
 SPECS = {
-    "quick": [spec(k, MENU, bound=1, ly=1) for k in _q] + [spec("resp", MENU, bound=1, ly=1, pp=1), spec("resp", MENU, bound=1, ly=1, rr=1), spec("count2", MENU, bound=1, ly=1, pp=1), spec("stubbed", MENU, bound=1)],
+    "quick": [spec(k, MENU, bound=1, ly=1) for k in _q] + [spec("resp", MENU, bound=1, ly=1, pp=1), spec("resp", MENU, bound=1, ly=1, rr=1), spec("count2", MENU, bound=1, ly=1, pp=1), spec("stubbed", MENU, bound=1), spec("tiny", MENU, bound=2, ly=1)],
     "thorough": [spec(k, MENU, bound=1, ly=1, a=a, pp=pp, rr=rr) for k in _q + ["grid22s", "tworuns", "cleanup", "flyonly"] for a in (0, 1) for pp in (0, 1) for rr in (0, 1)]
     + [spec(k, MENU, bound=2, ly=1) for k in ("resp", "tiny")],
 }
